@@ -468,9 +468,13 @@ pub fn check_case(case: &Case) -> Vec<(String, String)> {
             other.slots[hs].value = 1 - case.slots[hs].value.min(1);
             let (_, req2, _, ok2, _) = build(&other);
             if ok2 {
-                let m2: Vec<_> = router.match_request(&req2).into_iter().filter(|r| r.id() == "m").collect();
+                // a FRESH router (new route objects): the other request is the first one its routes ever see
+                let (rule_b, _, _, _, _) = build(case);
+                let mut router_b = Router::<Rule>::from_config(rc.clone());
+                router_b.insert(rule_b);
+                let m2: Vec<_> = router_b.match_request(&req2).into_iter().filter(|r| r.id() == "m").collect();
                 let _ = Action::from_routes_rule(m2, &req2, None);
-                let again: Vec<_> = router.clone().match_request(&req).into_iter().filter(|r| r.id() == "m").collect();
+                let again: Vec<_> = router_b.clone().match_request(&req).into_iter().filter(|r| r.id() == "m").collect();
                 let mut a2 = Action::from_routes_rule(again, &req, None);
                 let h2 = a2.filter_headers(vec![], 0, false, None);
                 let loc2 = h2.iter().find(|h| h.name == "Location").map(|h| h.value.clone()).unwrap_or_default();
